@@ -177,6 +177,10 @@ def check_program(case):
                 kk = 1 + (a % 2)
             if kind == "cross" and f.nvdim != 3:
                 continue
+            if kind in ("add", "sub", "mul", "div", "rmul") and b % 3 == 0:
+                # a scalar field with a vector field, in either order (Ms * m and m * Ms)
+                kk = 1 if f.nvdim > 1 else 3
+                tag("scalar-with-vector:" + ("vector-left" if f.nvdim > 1 else "scalar-left"))
             g2, Mg = second_operand(f.mesh, kk, s, cur_nd)
             operands.append(g2)
             before.append(g2.valid.tobytes())
